@@ -281,3 +281,9 @@ Definition case_ok (c : case) : bool :=
   Bool.eqb (equals ts s) r && list_eqb (canonical_set less ts) cs.
 Definition mismatches (cs : list case) : list N :=
   map (fun c => let '(id, _, _, _, _) := c in id) (filter (fun c => negb (case_ok c)) cs).
+
+(* TriangleIByIndex.Less on its own (round str4): id, the two triples, the boolean Go's Less returned *)
+Definition lcase := (N * tri * tri * bool)%type.
+Definition lmismatches (cs : list lcase) : list N :=
+  map (fun c : lcase => let '(id, _, _, _) := c in id)
+      (filter (fun c : lcase => let '(_, s, t, r) := c in negb (Bool.eqb (less s t) r)) cs).
